@@ -316,6 +316,9 @@ func autoAxioms(ts []*Term) []*Term {
 				out = append(out, mkImp(mkGe(u.Args[0], mkI(0)), mkGe(u, mkI(1))))
 				out = append(out, mkImp(mkEq(u.Args[0], mkI(0)), mkEq(u, mkI(1))))
 				out = append(out, mkImp(mkEq(u.Args[0], mkI(1)), mkEq(u, B)))
+				for kk := int64(2); kk <= 4; kk++ {
+					out = append(out, mkImp(mkEq(u.Args[0], mkI(kk)), mkEq(u, mkP(mkI(kk)))))
+				}
 			case "p10":
 				if seen[k] {
 					return true
